@@ -17,7 +17,8 @@ KindsFor(d)  == IF AllKinds THEN {k \in OnlyKinds : d.cur <= MaxCur(k)}
                 ELSE {Fitting(d)[(Hash(d) % Len(Fitting(d))) + 1]}
 Render(d, kind) == LET h == Hash(d) + Len(kind) IN
   UniformTime(kind, (h \div 2) % 2) @@
-  [style |-> (h \div 4) % 2, prefix |-> IF (h \div 8) % 3 = 0 THEN "/mirror/planet" ELSE ""]
+  [style |-> (h \div 4) % 2, prefix |-> IF (h \div 8) % 3 = 0 THEN "/mirror/planet" ELSE "",
+   lay |-> (7 * h + Seed) % 384, lists |-> IF Cardinality(d.present) <= 300 THEN 1 ELSE 0]
 \* pause family: states two seconds apart, a pause of about ten years (32-bit seconds leave room for two)
 PauseRender(d, kind, pauses) == [Render(d, kind) EXCEPT !.skew = 0, !.unit = 1, !.pauses = pauses, !.pauselen = 300000000]
 
@@ -46,7 +47,7 @@ Repeats(d, r, qs) == LET qa == 2 * d.cur + 1   sq == SetToSeq(qs)
                                 QueryRec(r, qa, 1), QueryRec(r, sq[1], 0)>>
 GenRecWith(d, r, qs) == LET c == CaseOf(d, 0, NoDevs) IN
   [kind |-> r.kind, skew |-> r.skew, style |-> r.style, prefix |-> r.prefix,
-   unit |-> r.unit, pauses |-> SetToSeq(r.pauses), pauselen |-> r.pauselen,
+   unit |-> r.unit, pauses |-> SetToSeq(r.pauses), pauselen |-> r.pauselen, lay |-> r.lay, lists |-> r.lists,
    present |-> SetToSeq(d.present), first |-> d.first, cur |-> d.cur,
    bound |-> c.bound, cap |-> Cap(c),
    current |-> CurrentFile(r, c),
